@@ -287,12 +287,24 @@ static bool all_zones_ok ()
 // ------------------------------------------------------------------ element types
 enum { MAGIC_ALIVE = 0x5A11FE01, MAGIC_DEAD = 0x0DEAD0DE };
 
-#define ELEM_NOTHROW_MOVE_CTOR   (CFG_ELEM == 0 || CFG_ELEM == 2 || CFG_ELEM == 5 || CFG_ELEM == 6 || CFG_ELEM == 8)
-#define ELEM_NOTHROW_MOVE_ASSIGN (CFG_ELEM == 0 || CFG_ELEM == 2 || CFG_ELEM == 5 || CFG_ELEM == 6 || CFG_ELEM == 7)
+#define ELEM_NOTHROW_MOVE_CTOR   (CFG_ELEM == 0 || CFG_ELEM == 2 || CFG_ELEM == 5 || CFG_ELEM == 6 || CFG_ELEM == 8 || CFG_ELEM == 9)
+#define ELEM_NOTHROW_MOVE_ASSIGN (CFG_ELEM == 0 || CFG_ELEM == 2 || CFG_ELEM == 5 || CFG_ELEM == 6 || CFG_ELEM == 7 || CFG_ELEM == 9)
 #define ELEM_NOTHROW_MOVE (ELEM_NOTHROW_MOVE_CTOR && ELEM_NOTHROW_MOVE_ASSIGN)
 #define ELEM_COPYABLE     (CFG_ELEM != 2 && CFG_ELEM != 3)
 #define ELEM_HAS_MOVE     (CFG_ELEM != 4)
-#define ELEM_TRACKED      (CFG_ELEM <= 4 || CFG_ELEM >= 7)
+#define ELEM_TRACKED      (CFG_ELEM <= 4 || CFG_ELEM == 7 || CFG_ELEM == 8)
+
+// A source value that elements can be CONSTRUCTED from (explicitly) but not ASSIGNED from: ranges of these take the
+// library's "not assignable from *first" routes (assign = erase everything, then append).
+struct Src
+{
+  int v;
+#if CFG_ELEM == 6
+  explicit operator int () const { return v; }
+#elif CFG_ELEM == 9
+  explicit operator double () const { return static_cast<double> (v); }
+#endif
+};
 
 struct Tracked
 {
@@ -308,6 +320,13 @@ struct Tracked
   }
 
   /* implicit */ Tracked (int x) : v (x), mf (0), magic (0)
+  {
+    g_inj.tick (FK_VALUE);
+    magic = MAGIC_ALIVE;
+    obj_event (1, this, 3, 0, false);
+  }
+
+  explicit Tracked (const Src &x) : v (x.v), mf (0), magic (0)
   {
     g_inj.tick (FK_VALUE);
     magic = MAGIC_ALIVE;
@@ -383,6 +402,7 @@ struct Triv
   int v;
   Triv () = default;
   /* implicit */ Triv (int x) : v (x) { }
+  explicit Triv (const Src &x) : v (x.v) { }
 #if CFG_SPACESHIP && defined (__cpp_impl_three_way_comparison)
   friend auto operator<=> (const Triv &a, const Triv &b) { return a.v <=> b.v; }
 #endif
@@ -394,7 +414,7 @@ inline bool operator<= (const Triv &a, const Triv &b) { return a.v <= b.v; }
 inline bool operator>  (const Triv &a, const Triv &b) { return a.v >  b.v; }
 inline bool operator>= (const Triv &a, const Triv &b) { return a.v >= b.v; }
 
-#if CFG_ELEM <= 4 || CFG_ELEM >= 7
+#if CFG_ELEM <= 4 || CFG_ELEM == 7 || CFG_ELEM == 8
 typedef Tracked Elem;
 static inline int  val_of (const Elem &e) { return e.v; }
 static inline int  mf_of (const Elem &e) { return e.mf; }
@@ -404,6 +424,14 @@ typedef Triv Elem;
 static inline int  val_of (const Elem &e) { return e.v; }
 static inline int  mf_of (const Elem &) { return 0; }
 static inline Elem make_elem (int v) { Elem e (v); return e; }
+#elif CFG_ELEM == 9
+// floating point: value code 2 is -0.0 (equal to code 0 = +0.0, different bytes), code 3 is a NaN (unequal to itself,
+// unordered with everything); every other code is the number itself
+#include <cmath>
+typedef double Elem;
+static inline int  val_of (const Elem &e) { return std::isnan (e) ? 3 : (e == 0.0 && std::signbit (e)) ? 2 : static_cast<int> (e); }
+static inline int  mf_of (const Elem &) { return 0; }
+static inline Elem make_elem (int v) { return v == 2 ? -0.0 : v == 3 ? std::nan ("") : static_cast<double> (v); }
 #else
 typedef int Elem;
 static inline int  val_of (const Elem &e) { return e; }
@@ -413,11 +441,21 @@ static inline Elem make_elem (int v) { return v; }
 
 static const char *elem_name ()
 {
-  static const char *n[] = { "NT", "TM", "MO", "MOT", "CO", "TRIV", "INT", "MA", "MC" };
+  static const char *n[] = { "NT", "TM", "MO", "MOT", "CO", "TRIV", "INT", "MA", "MC", "FLT" };
   return n[CFG_ELEM];
 }
 
 // ------------------------------------------------------------------ allocators
+#ifndef CFG_CONSTRUCT
+#define CFG_CONSTRUCT 0
+#endif
+#define DEFVAL (CFG_CONSTRUCT == 2 ? 42 : 0)
+#if CFG_ELEM <= 5 || CFG_ELEM == 7 || CFG_ELEM == 8
+static inline void mark_value_constructed (Elem &e) { e.v = 42; }
+#else
+static inline void mark_value_constructed (Elem &e) { e = 42; }
+#endif
+template <typename U> static inline void mark_value_constructed (U &) { }
 template <int Bits> struct SizeT;
 template <> struct SizeT<8>  { typedef std::uint8_t  size_type; typedef std::int8_t  difference_type; };
 template <> struct SizeT<16> { typedef std::uint16_t size_type; typedef std::int16_t difference_type; };
@@ -468,11 +506,22 @@ struct LedgerAlloc
     return LedgerAlloc (CFG_SOCCC ? id + 50 : id);
   }
 
-#if CFG_CONSTRUCT
+#if CFG_CONSTRUCT == 1
   // construct/destroy members: the container must route every element construction and
   // destruction through them (they behave like the defaults, so the event stream is identical).
   template <typename U, typename... Args>
   void construct (U *p, Args &&... args) { ::new (static_cast<void *> (p)) U (std::forward<Args> (args)...); }
+  template <typename U>
+  void destroy (U *p) { p->~U (); }
+#elif CFG_CONSTRUCT == 2
+  // construct only, and its value-construction form leaves a mark (the "default-init allocator" pattern): every
+  // value-constructed element must come out as DEFVAL, for trivially constructible element types too
+  template <typename U, typename A0, typename... Args>
+  void construct (U *p, A0 &&a0, Args &&... args) { ::new (static_cast<void *> (p)) U (std::forward<A0> (a0), std::forward<Args> (args)...); }
+  template <typename U>
+  void construct (U *p) { ::new (static_cast<void *> (p)) U (); mark_value_constructed (*p); }
+#elif CFG_CONSTRUCT == 3
+  // destroy only
   template <typename U>
   void destroy (U *p) { p->~U (); }
 #endif
@@ -667,21 +716,21 @@ struct StreamIt
 
 // Multi-pass iterators of a chosen category over the same array.  They only report walking or
 // reading at/after the end (events 6/7 with region 9), and are fault points.
-template <typename Cat>
+template <typename Cat, typename T = Elem>
 struct WalkIt
 {
   typedef Cat iterator_category;
-  typedef Elem value_type;
+  typedef T value_type;
   typedef std::ptrdiff_t difference_type;
-  typedef const Elem *pointer;
-  typedef const Elem &reference;
+  typedef const T *pointer;
+  typedef const T &reference;
 
-  const Elem *base;
+  const T *base;
   int len;
   int pos;
 
   WalkIt () : base (0), len (0), pos (0) { }
-  WalkIt (const Elem *b, int l, int p) : base (b), len (l), pos (p) { }
+  WalkIt (const T *b, int l, int p) : base (b), len (l), pos (p) { }
 
   reference operator* () const
   {
@@ -883,18 +932,22 @@ struct OpResult
 };
 
 static std::vector<Elem> *g_src;       // source array for ranges (ext region, base 0)
+static std::vector<Src>  *g_csrc;      // the same values as construct-only sources (range kind 7)
 static Elem              *g_arg;       // single-value argument (ext region, index 100)
 
 static void prepare_src (int len, OpResult &res)
 {
   bool l = g_logging; g_logging = false;
   g_src->clear ();
+  g_csrc->clear ();
   g_src->reserve (static_cast<size_t> (len) + 1);
   for (int i = 0; i < len; ++i)
     {
       int v = g_next_val++;
       res.vals.push_back (v);
       g_src->push_back (make_elem (v));
+      Src cs = { v };
+      g_csrc->push_back (cs);
     }
   g_logging = l;
   ext_register (g_src->data (), static_cast<size_t> (len), sizeof (Elem), 0);
@@ -1028,7 +1081,7 @@ static void call_range (V &v, int what, long pos, It f, It l, OpResult &res)
 }
 
 // kinds: 0 input 1 forward 2 bidirectional 3 random access 4 pointer 5 move_iterator<pointer>
-//        6 iterators of another container (std::vector here)
+//        6 iterators of another container (std::vector here)  7 forward over construct-only sources (Src)
 // Copying kinds are only instantiated for copyable element flavours.
 template <typename V>
 static bool range_copy_kinds (V &v, int what, long pos, int kind, int len, OpResult &res, Bool<false>)
@@ -1062,6 +1115,21 @@ static bool op_range_family (V &v, const Op &, int what, long pos, int kind, int
       Elem *mb = g_src->data ();
       call_range (v, what, pos, std::make_move_iterator (mb), std::make_move_iterator (mb + len), res);
       return true;
+    }
+  if (kind == 7)
+    {
+      // forward range of construct-only sources: assign / append only (a mid-sequence insert assigns from *first,
+      // and so do all of std::vector's range members but the constructor)
+#if CFG_VECTOR
+      return false;
+#else
+      if (what == 2) return false;
+      typedef WalkIt<std::forward_iterator_tag, Src> It;
+      const Src *cb = g_csrc->data ();
+      if (what == 1) { ARM (); v.assign (It (cb, len, 0), It (cb, len, len)); }
+      else           { ARM (); v.append (It (cb, len, 0), It (cb, len, len)); }
+      return true;
+#endif
     }
   return range_copy_kinds (v, what, pos, kind, len, res, Bool<ELEM_COPYABLE> ());
 }
@@ -1270,6 +1338,14 @@ static void construct_range (void *mem, int kind, int len, int aid, OpResult &re
       CT (std::make_move_iterator (mb), std::make_move_iterator (mb + len));
       return;
     }
+  if (kind == 7)
+    {
+      typedef WalkIt<std::forward_iterator_tag, Src> It;
+      const Src *cb = g_csrc->data ();
+      ARM ();
+      CT (It (cb, len, 0), It (cb, len, len));
+      return;
+    }
   if (! construct_copy_kinds<V> (mem, kind, len, aid, res, Bool<ELEM_COPYABLE> ())) res.out = "skip";
 }
 #undef CT
@@ -1380,7 +1456,7 @@ static long bin_compare (const VD &d, const VS &s)
   if (d <= s) m |= 8;
   if (d >  s) m |= 16;
   if (d >= s) m |= 32;
-#if defined (__cpp_impl_three_way_comparison) && ! CFG_VECTOR && defined (__cpp_lib_three_way_comparison)
+#if defined (__cpp_impl_three_way_comparison) && defined (__cpp_lib_three_way_comparison)
   auto c = d <=> s;
   if (c < 0) m |= 64;
   if (c == 0) m |= 128;
@@ -1799,7 +1875,8 @@ static void print_cfg ()
   fprintf (g_out,
            "{\"t\":\"cfg\",\"name\":\"%s\",\"na\":%d,\"nb\":%d,\"elem\":\"%s\",\"nothrowMove\":%s,\"copyable\":%s,\"hasMove\":%s,"
            "\"nothrowMoveCtor\":%s,\"nothrowMoveAssign\":%s,\"tracked\":%s,\"isStd\":%s,\"pocca\":%s,\"pocma\":%s,\"pocs\":%s,\"ae\":%s,\"construct\":%s,\"sizet\":%d,"
-           "\"max\":%ld,\"allocMax\":%ld,\"diffMax\":%ld,\"soccc\":%d,\"std\":%ld,\"compiler\":\"%s\",\"concepts\":%d,\"vector\":%s,\"szA\":%zu,\"szB\":%zu}\n",
+           "\"max\":%ld,\"allocMax\":%ld,\"diffMax\":%ld,\"soccc\":%d,\"std\":%ld,\"compiler\":\"%s\",\"concepts\":%d,\"vector\":%s,\"szA\":%zu,\"szB\":%zu,"
+           "\"flt\":%s,\"defval\":%d}\n",
            CFG_NAME, CFG_NA, CFG_NB, elem_name (), ELEM_NOTHROW_MOVE ? "true" : "false", ELEM_COPYABLE ? "true" : "false",
            ELEM_HAS_MOVE ? "true" : "false", ELEM_NOTHROW_MOVE_CTOR ? "true" : "false", ELEM_NOTHROW_MOVE_ASSIGN ? "true" : "false",
            ELEM_TRACKED ? "true" : "false", CFG_ALLOC == 0 ? "true" : "false",
@@ -1807,7 +1884,8 @@ static void print_cfg ()
            CFG_AE ? "true" : "false", CFG_CONSTRUCT ? "true" : "false", CFG_SIZET, natural_max,
            clamp30 (std::allocator_traits<Alloc>::max_size (make_alloc (1))),
            clamp30 (static_cast<unsigned long long> ((std::numeric_limits<std::allocator_traits<Alloc>::difference_type>::max) ())), CFG_SOCCC,
-           static_cast<long> (__cplusplus), comp, concepts, CFG_VECTOR ? "true" : "false", sizeof (VA), sizeof (VB));
+           static_cast<long> (__cplusplus), comp, concepts, CFG_VECTOR ? "true" : "false", sizeof (VA), sizeof (VB),
+           CFG_ELEM == 9 ? "true" : "false", DEFVAL);
 }
 
 int main (int argc, char **argv)
@@ -1824,6 +1902,7 @@ int main (int argc, char **argv)
   std::signal (SIGALRM, on_signal); std::signal (SIGFPE, on_signal); std::signal (SIGILL, on_signal);
 
   std::vector<Elem> src; g_src = &src;
+  std::vector<Src> csrc; g_csrc = &csrc;
 #if CFG_ALLOC == 0
   g_track_new = true;
 #endif
